@@ -68,7 +68,8 @@ CLAIMS = {
              "comparisons are `deadline <= now`; R01.2 every keyed read of data is dominated by is_expired/get_value on the same "
              "key, whole-map reads filter by is_expired; R01.3 data.remove pairs with expirations.remove on all paths; R01.4 "
              "whole-value inserts update the TTL or are in the frozen keep-TTL table behind a purge; R01.5 shrinking a stored "
-             "collection is followed by an emptiness test + removal; R01.7 seconds/milliseconds sibling commands have equal "
+             "collection is followed by an emptiness test + removal; R01.6 a create-if-absent is followed on every path by an add "
+             "(per loop iteration), a removal, or the wrong-type exit; R01.7 seconds/milliseconds sibling commands have equal "
              "decision skeletons. Does not decide equality of replies with Redis.",
         technique="MIR provenance/dominance pairing rules over all executor handlers, path search with exempt edges, sibling CFG-skeleton comparison",
         ref="DESIGN.md §3 C01"),
